@@ -1,0 +1,15 @@
+//go:build verif
+
+package absnfs
+
+import "sync/atomic"
+
+// Verification hooks (build tag "verif" only). The conformance harness under /verif installs a
+// function that receives one event per linearization point; without the tag vhook is empty.
+var vfHookP atomic.Pointer[func(ev string, kv ...any)]
+
+func vhook(ev string, kv ...any) {
+	if h := vfHookP.Load(); h != nil {
+		(*h)(ev, kv...)
+	}
+}
